@@ -276,11 +276,21 @@ def run_case(case, rseed, want_source=True):
     obj = build(case, pl)
     names = pl["names"]
     roots = [obj[r] for r in case["roots"]]
+    # a class superseded by a later class of the same name (how kernels are rebuilt after a class was redefined: the class the
+    # sort resolves a name to is the LAST one listed): an older, dependency-free namesake in front of the roots changes nothing
+    # of what the contract prescribes for the graph
+    rs = random.Random(rseed + "/superseded")
+    older = [c for c in case["roots"] if pl["kinds"][c] == "struct" and case["deps"][c - 1]]
+    superseded = 0
+    if older and rs.random() < 0.25:
+        from xobjects.struct import MetaStruct
+        superseded = rs.choice(older)
+        roots = [MetaStruct(names[superseded], (xo.Struct,), {})] + roots
     n = len(case["deps"])
     rec = dict(n=n, deps=[[[t, ek] for t, ek in pl["edges"].get(c, [])] for c in range(1, n + 1)],
                api=[1 if (c in obj and hasattr(obj[c], "_gen_c_api")) else 0 for c in range(1, n + 1)],
                roots=list(case["roots"]), k="ok", res=[], sk="none", ev=[])
-    aux = dict(exc="", sexc="", src=None, pl=pl)
+    aux = dict(exc="", sexc="", src=None, pl=pl, superseded=superseded)
     try:
         res = xo.context.sort_classes(list(roots))
         rec["res"] = [_ident(obj, names, x) for x in res]
@@ -350,7 +360,7 @@ def _work(job):
         pl = aux["pl"]
         if aux["src"] is not None:
             srcs.append((idx, aux["src"]))
-        out.append([idx, rec, dict(exc=aux["exc"], sexc=aux["sexc"], kinds={str(c): k for c, k in pl["kinds"].items()},
+        out.append([idx, rec, dict(exc=aux["exc"], sexc=aux["sexc"], superseded=aux.get("superseded", 0), kinds={str(c): k for c, k in pl["kinds"].items()},
                                    names={str(c): v for c, v in pl["names"].items()}, rseed=rseed, cc="")])
     bad = syntax_check(srcs, wd, tag)
     for o in out:
@@ -561,6 +571,8 @@ def check(pid, argv=None):
         stats["source:" + rec["sk"]] += 1
         if len(set(case["roots"])) < len(case["roots"]):
             stats["roots_with_repeats"] += 1
+        if aux.get("superseded"):
+            stats["roots_with_a_superseded_namesake"] += 1
         if any(len(set(d)) < len(d) for d in case["deps"]):
             stats["duplicate_dependency_entries"] += 1
         if "k" in case:
@@ -574,7 +586,7 @@ def check(pid, argv=None):
             raise C.MachineryError(f"harness produced a malformed record: {rec}")
         if v[0]:
             who = node_desc(case, pl, v[1])
-            run.report(f"sort_classes:{v[0]}:{who}",
+            run.report(f"sort_classes:{v[0]}:{who}" + (":superseded-namesake-listed-first" if aux.get("superseded") else ""),
                        f"sort_classes: {v[0]} (class {v[1]} = {who}); deps={case['deps']} api={case['api']} roots={case['roots']} "
                        f"realised={rec['deps']} kinds={aux['kinds']} -> {rec['k']} {rec['res']} {aux['exc']}", rp)
         if v[2]:
@@ -637,7 +649,7 @@ def check(pid, argv=None):
     if not run.replay:
         # vacuity: every kind of node and edge and both outcomes must have been exercised
         need = ["node:struct", "node:hybrid", "node:array", "node:ref", "node:union", "node:scalar", "node:duck", "edge:field", "edge:item", "edge:ref",
-                "edge:member", "edge:declared", "roots_with_repeats", "duplicate_dependency_entries"]
+                "edge:member", "edge:declared", "roots_with_repeats", "duplicate_dependency_entries", "roots_with_a_superseded_namesake"]
         miss = [k for k in need if not stats[k]]
         if miss or not run.notes["cyclic_cases"]:
             raise C.MachineryError(f"vacuous run: never exercised {miss} / cyclic={run.notes['cyclic_cases']}")
